@@ -3014,3 +3014,146 @@ func sameArrayBothScopes(outer, inner ast.Node, name string) bool {
 	}
 	return false
 }
+
+// SIGNZERO — a sign is not encoded as the sign of a counter that takes the value 0.
+//
+// A table that stores `i` for the positive and `-i` for the negative representative of a class cannot tell the two
+// apart at i = 0 (-0 == 0): the second store overwrites nothing but yields the same value, and every consumer that
+// looks the negative class of 0 up under its own key never finds it (blind rotation: a mask coefficient equal to -1
+// was rotated as +1).
+//
+// Rule: in a `for i := 0; ...` loop whose body stores both `i` and `-i` (the bare counter and its negation) into
+// elements of the same map or slice, the store of `-i` is under a test that separates i == 0.
+func scanSignZero(c *core.Ctx) []ob {
+	var out []ob
+	n := 0
+	c.FuncDecls(func(pk *packages.Package, file *ast.File, fd *ast.FuncDecl) {
+		if fd.Body == nil || fileIsTestSupport(c.Program, fd.Pos()) || inExamples(pk) {
+			return
+		}
+		info := pk.TypesInfo
+		fkey := core.FuncKey(pk, fd)
+		ast.Inspect(fd.Body, func(x ast.Node) bool {
+			fs, ok := x.(*ast.ForStmt)
+			if !ok {
+				return true
+			}
+			n++
+			as, ok := fs.Init.(*ast.AssignStmt)
+			if !ok || as.Tok != token.DEFINE || len(as.Lhs) == 0 || len(as.Rhs) != len(as.Lhs) {
+				return true
+			}
+			for k, l := range as.Lhs {
+				id, ok := l.(*ast.Ident)
+				if !ok {
+					continue
+				}
+				lit, ok := unparen(as.Rhs[k]).(*ast.BasicLit)
+				if !ok || lit.Value != "0" {
+					continue
+				}
+				cnt := info.Defs[id]
+				if cnt == nil {
+					continue
+				}
+				isCnt := func(e ast.Expr) bool {
+					i, ok := unparen(e).(*ast.Ident)
+					return ok && info.Uses[i] == cnt
+				}
+				// stores of i and -i, per container
+				pos := map[string]bool{}
+				type negStore struct {
+					at      ast.Node
+					guarded bool
+				}
+				neg := map[string][]negStore{}
+				var walk func(y ast.Node, guarded bool)
+				walk = func(y ast.Node, guarded bool) {
+					switch v := y.(type) {
+					case nil:
+						return
+					case *ast.IfStmt:
+						g := guarded
+						ast.Inspect(v.Cond, func(z ast.Node) bool {
+							if be, ok := z.(*ast.BinaryExpr); ok {
+								zero := func(e ast.Expr) bool {
+									l, ok := unparen(e).(*ast.BasicLit)
+									return ok && l.Value == "0"
+								}
+								if (isCnt(be.X) && zero(be.Y)) || (isCnt(be.Y) && zero(be.X)) {
+									g = true
+								}
+							}
+							return true
+						})
+						walk(v.Body, g)
+						if v.Else != nil {
+							walk(v.Else, g)
+						}
+						return
+					case *ast.BlockStmt:
+						for _, st := range v.List {
+							walk(st, guarded)
+						}
+						return
+					case *ast.AssignStmt:
+						if len(v.Lhs) != len(v.Rhs) {
+							return
+						}
+						for j, lhs := range v.Lhs {
+							ie, ok := unparen(lhs).(*ast.IndexExpr)
+							if !ok {
+								continue
+							}
+							cont := exprString(ie.X)
+							r := unparen(v.Rhs[j])
+							if isCnt(r) {
+								pos[cont] = true
+							} else if ue, ok := r.(*ast.UnaryExpr); ok && ue.Op == token.SUB && isCnt(ue.X) {
+								neg[cont] = append(neg[cont], negStore{v, guarded})
+							}
+						}
+						return
+					case *ast.ForStmt:
+						walk(v.Body, guarded)
+						return
+					case *ast.RangeStmt:
+						walk(v.Body, guarded)
+						return
+					}
+				}
+				walk(fs.Body, false)
+				for cont, stores := range neg {
+					if !pos[cont] {
+						continue
+					}
+					for _, st := range stores {
+						key := fmt.Sprintf("SIGNZERO:%s#%s[-%s]", fkey, cont, id.Name)
+						if st.guarded {
+							out = append(out, withProps(okOb("SIGNZERO", key, c.Rel(st.at.Pos()), "the store of the negated counter is under a test that separates 0", true), "C20"))
+						} else {
+							out = append(out, withProps(violOb("SIGNZERO", key, c.Rel(st.at.Pos()), fmt.Sprintf("%s stores both %s and -%s into %s in a loop that starts at %s = 0: for 0 the two classes get the same value (-0 == 0) and the negative class of 0 can never be found", fkey, id.Name, id.Name, cont, id.Name)), "C20"))
+						}
+					}
+				}
+			}
+			return true
+		})
+	})
+	c.Stats["signzero_loops"] = n
+	if !c.IsFixture {
+		out = append(out, okOb("SIGNZERO", "SIGNZERO:summary", "", fmt.Sprintf("%d for statements examined", n), true))
+	}
+	return out
+}
+
+func init() {
+	core.Register(&core.Rule{Name: "SIGNZERO", Props: []string{"C20"},
+		Doc: "a `for i := 0` loop that stores both the counter and its negation into elements of the same map/slice (sign of a class encoded as the sign of an index) stores the negation under a test that separates i == 0",
+		Run: func(c *core.Ctx) []ob {
+			out := scanSignZero(c)
+			out = append(out, control(c, "SIGNZERO", scanSignZero, "lvfixture.signedLog")...)
+			out = append(out, core.Floor("SIGNZERO", nil, "for statements", c.Stats["signzero_loops"], 500)...)
+			return out
+		}})
+}
